@@ -27,6 +27,10 @@ def gen(tier, rng):
     yield nodegen.translated_script(rng, "translated")
     yield nodegen.advertised_script(rng, "advertised")
     yield nodegen.translated_long_script(rng, "translated-long")
+    # "including nodes behind address-filtering NATs that dial each other": dual open with the first ping filtered, several times (the roles are random)
+    for i in range(8 if thorough else 4):
+        yield nodegen.nat_dialback_script(rng, "nat-dialback-%d" % i, both_nat=(i % 2 == 0), wait=0)
+    yield nodegen.nat_dialback_script(rng, "nat-dialback-late", both_nat=False, wait=125)
     # meshes whose nodes enabled 'plain' (unencrypted sessions): the peer exchange must work all the same
     plain = nodegen.algos_str(True, [])
     yield nodegen.c14_graph_script(rng, "graph-plain-3", 3, [(1, 2), (2, 3)], seconds=10, algos=plain)
